@@ -117,31 +117,20 @@ def inside_interface(m, ifc, p):
     return abs(tot) > 2 * math.pi
 
 def abstract(m, probes=(), old=False):
-    """integer wire of the description for the extracted model (cond_wire appends the conductivity part)"""
+    """the geometric oracles of a description whose names are already those the reader will see: solid-angle sign
+    per interface, insideness per probe and interface (+ the resolved description used to compute them)"""
     ids = point_ids(m["meshes"])
     ifs, doms = resolve(m)
     fixed = [local_fix(ts) if not is_consistent(ts) else list(ts) for _, _, ts in m["meshes"]]
-    w = [1 if old else 0, len(m["meshes"])]
-    for (name, vs, ts), pid in zip(m["meshes"], ids):
-        w += [len(pid)] + pid + [len(ts)] + [x for t in ts for x in t]
-    w.append(len(ifs))
-    for ifc in ifs:
-        w.append(len(ifc))
-        for s, k in ifc: w += [s, k]
     ok_if = [all(k < len(m["meshes"]) for _, k in ifc) for ifc in ifs]
     def _isign(ifc):
         try: return interface_sign(m, ifc, ids, fixed)
         except IndexError: return 0          # damaged mesh: the load fails before the interface is looked at
     isign = [_isign(ifc) if ok else 0 for ifc, ok in zip(ifs, ok_if)]
-    w += isign
-    w.append(len(doms))
-    for d in doms:
-        w.append(len(d))
-        for ins, i in d: w += [ins, i]
-    w.append(len(probes))
+    pw = [len(probes)]
     for p in probes:
-        w += [1 if (ok and inside_interface(m, ifc, p)) else 0 for ifc, ok in zip(ifs, ok_if)]
-    return w, dict(isign=isign, ifs=ifs, doms=doms, unstable=(2 in isign))
+        pw += [1 if (ok and inside_interface(m, ifc, p)) else 0 for ifc, ok in zip(ifs, ok_if)]
+    return dict(isign=isign, ifs=ifs, doms=doms, unstable=(2 in isign), probe_wire=pw)
 
 # ------------------------------------------------------------------ probes
 def probe_points(m, rng, n, margin=0.04):
@@ -273,67 +262,110 @@ def write_meshes(m, dirpath, fmt="tri"):
 
 def sg(s): return "+" if s > 0 else "-"
 
-def write_geom(m, dirpath, fmt="tri", style="1.1", rng=None, stem="model"):
-    """style: '1.1' full syntax (Meshes/Interfaces/Domains, named), '1.1c' the same with comments, blank lines and an
-    explicit '+' omitted where allowed, '1.1i' meshes given as interfaces (no Meshes section; needs one mesh per
-    interface, all signs +), '1.1u' unnamed Mesh:/Interface: sections (names 1..n), '1.0' legacy syntax (needs
-    one mesh per interface).  Returns the path, or None if the model cannot be written in that style."""
-    files = write_meshes(m, dirpath, fmt)
-    g = os.path.join(dirpath, stem + ".geom")
+def geom_tokens(m, style="1.1", rng=None):
+    """token structure of a .geom file for the model in the given style (what coq/Geom/GeomFile.v reads):
+    dict(version, has_meshes, meshes=[(given name|None, mesh number)], ifaces=[(given|None, [(sgn, name)])],
+         domains=[(name, [("t", sgn, name) | ("shared",)])], comments=bool);  sgn in "", "+", "-".
+    Returns None if the model cannot be written in that style."""
     single = all(len(ms) == 1 and ms[0][0] > 0 for _, ms in m["interfaces"]) and len(m["interfaces"]) == len(m["meshes"]) \
         and [ms[0][1] for _, ms in m["interfaces"]] == [n for n, _, _ in m["meshes"]]
-    L = []
+    def sgn(s, loose): return "-" if s < 0 else ("+" if (not loose or rng is None or rng.random() < 0.5) else "")
+    T = dict(version="1.1", has_meshes=True, meshes=[], ifaces=[], domains=[], comments=(style == "1.1c"))
     if style in ("1.1", "1.1c"):
-        c = style == "1.1c"
-        def cm():
-            if c and rng is not None and rng.random() < 0.5: L.append(rng.choice(["# a comment", "", "#", "   # indented comment", "#Mesh x: \"nothing\""]))
-        L.append("# Domain Description 1.1"); cm()
-        L.append("Meshes %d" % len(m["meshes"])); cm()
-        for k, (name, _, _) in enumerate(m["meshes"]):
-            L.append('Mesh %s: "%s"' % (name, files[k])); cm()
-        L.append("Interfaces %d" % len(m["interfaces"])); cm()
-        for name, ms in m["interfaces"]:
-            toks = [((sg(s) if (s < 0 or not c or rng is None or rng.random() < 0.5) else "") + mn) for s, mn in ms]
-            L.append("Interface %s: %s" % (name, " ".join(toks))); cm()
-        L.append("Domains %d" % len(m["domains"])); cm()
-        for name, bs in m["domains"]:
-            toks = [((sg(s) if (s < 0 or not c or rng is None or rng.random() < 0.5) else "") + i) for s, i in bs]
-            L.append("Domain %s: %s" % (name, " ".join(toks))); cm()
+        loose = style == "1.1c"
+        T["meshes"] = [(n, k) for k, (n, _, _) in enumerate(m["meshes"])]
+        T["ifaces"] = [(n, [(sgn(s, loose), mn) for s, mn in ms]) for n, ms in m["interfaces"]]
+        T["domains"] = [(n, [("t", sgn(s, loose), i) for s, i in bs]) for n, bs in m["domains"]]
     elif style == "1.1i":
         if not single: return None
-        L.append("# Domain Description 1.1"); L.append("")
-        L.append("Interfaces %d" % len(m["interfaces"])); L.append("")
-        for k, (name, ms) in enumerate(m["interfaces"]):
-            L.append('Interface %s: "%s"' % (name, files[k]))
-        L.append(""); L.append("Domains %d" % len(m["domains"])); L.append("")
-        for name, bs in m["domains"]:
-            L.append("Domain %s: %s" % (name, " ".join(sg(s) + i for s, i in bs)))
+        T["has_meshes"] = False
+        T["meshes"] = [(n, k) for k, (n, _) in enumerate(m["interfaces"])]
+        T["domains"] = [(n, [("t", sgn(s, False), i) for s, i in bs]) for n, bs in m["domains"]]
     elif style == "1.1u":
-        # unnamed sections: meshes are called 1..n, interfaces 1..n
         mnum = {n: str(k + 1) for k, (n, _, _) in enumerate(m["meshes"])}
         inum = {n: str(k + 1) for k, (n, _) in enumerate(m["interfaces"])}
         if len(mnum) != len(m["meshes"]) or len(inum) != len(m["interfaces"]): return None
-        L.append("# Domain Description 1.1"); L.append("")
-        L.append("Meshes %d" % len(m["meshes"])); L.append("")
-        for k in range(len(m["meshes"])): L.append('Mesh: "%s"' % files[k])
-        L.append(""); L.append("Interfaces %d" % len(m["interfaces"])); L.append("")
-        for name, ms in m["interfaces"]: L.append("Interface: %s" % " ".join(sg(s) + mnum[mn] for s, mn in ms))
-        L.append(""); L.append("Domains %d" % len(m["domains"])); L.append("")
-        for name, bs in m["domains"]: L.append("Domain %s: %s" % (name, " ".join(sg(s) + inum[i] for s, i in bs)))
+        T["meshes"] = [(None, k) for k in range(len(m["meshes"]))]
+        T["ifaces"] = [(None, [(sgn(s, False), mnum.get(mn, mn)) for s, mn in ms]) for n, ms in m["interfaces"]]
+        T["domains"] = [(n, [("t", sgn(s, False), inum.get(i, i)) for s, i in bs]) for n, bs in m["domains"]]
     elif style == "1.0":
         if not single: return None
         inum = {n: str(k + 1) for k, (n, _) in enumerate(m["interfaces"])}
-        L.append("# Domain Description 1.0"); L.append("")
-        L.append("Interfaces %d Mesh" % len(m["interfaces"])); L.append("")
-        for k in range(len(m["interfaces"])): L.append(files[k])
-        L.append(""); L.append("Domains %d" % len(m["domains"])); L.append("")
-        for name, bs in m["domains"]:
-            toks = [(("-" if s < 0 else rng.choice(["", "+"]) if rng is not None else "") + inum[i]) for s, i in bs]
-            L.append("Domain %s %s%s" % (name.replace(":", "_"), " ".join(toks), " shared" if (rng is not None and rng.random() < 0.2) else ""))
+        T["version"] = "1.0"; T["has_meshes"] = False
+        T["meshes"] = [(None, k) for k in range(len(m["interfaces"]))]
+        for n, bs in m["domains"]:
+            toks = [("t", sgn(s, True), inum.get(i, i)) for s, i in bs]
+            if rng is not None and rng.random() < 0.25: toks.append(("shared",))
+            T["domains"].append((n.replace(":", "_"), toks))
     else:
         raise ValueError(style)
+    return T
+
+def write_geom(m, dirpath, fmt="tri", style="1.1", rng=None, stem="model", tokens=None):
+    """writes the mesh files and <stem>.geom in the given style ('1.1' full syntax, '1.1c' the same with comments,
+    blank lines and optional '+' omitted, '1.1i' meshes given as interfaces, '1.1u' unnamed Mesh:/Interface:
+    sections, '1.0' legacy).  Returns the path (None if the style cannot express the model); the token structure
+    is left in write_geom.last."""
+    files = write_meshes(m, dirpath, fmt)
+    T = tokens if tokens is not None else geom_tokens(m, style, rng)
+    write_geom.last = T
+    if T is None: return None
+    g = os.path.join(dirpath, stem + ".geom")
+    L = []
+    def cm():
+        if T.get("comments") and rng is not None and rng.random() < 0.5:
+            L.append(rng.choice(["# a comment", "", "#", "   # indented comment", "#Mesh x: \"nothing\""]))
+    L.append("# Domain Description %s" % T["version"]); cm()
+    if T["version"] == "1.0":
+        L.append(""); L.append("Interfaces %d Mesh" % len(T["meshes"])); L.append("")
+        for given, k in T["meshes"]: L.append(files[k])
+        L.append(""); L.append("Domains %d" % len(T["domains"])); L.append("")
+        for n, toks in T["domains"]:
+            L.append("Domain %s %s" % (n, " ".join(("shared" if t[0] == "shared" else t[1] + t[2]) for t in toks)))
+    else:
+        if T["has_meshes"]:
+            L.append("Meshes %d" % len(T["meshes"])); cm()
+            for given, k in T["meshes"]:
+                L.append(('Mesh %s: "%s"' % (given, files[k])) if given is not None else ('Mesh: "%s"' % files[k])); cm()
+            L.append("Interfaces %d" % len(T["ifaces"])); cm()
+            for given, toks in T["ifaces"]:
+                L.append(("Interface %s: " % given if given is not None else "Interface: ") + " ".join(s_ + n for s_, n in toks)); cm()
+        else:
+            L.append(""); L.append("Interfaces %d" % len(T["meshes"])); L.append("")
+            for given, k in T["meshes"]:
+                L.append(('Interface %s: "%s"' % (given, files[k])) if given is not None else ('Interface: "%s"' % files[k]))
+        L.append("Domains %d" % len(T["domains"])); cm()
+        for n, toks in T["domains"]:
+            L.append("Domain %s: %s" % (n, " ".join(("shared" if t[0] == "shared" else t[1] + t[2]) for t in toks))); cm()
     with open(g, "w") as fh: fh.write("\n".join(L) + "\n")
     return g
+write_geom.last = None
+
+def file_wire(m, T, ids=None):
+    """integer wire of the token structure for coq/Geom/RunC11.v (getCase, up to the interface signs); names -> ids.
+    Returns (head, tail, ids): head = version .. interfaces, tail = domains + numeral names"""
+    ids = {} if ids is None else ids
+    def nid(n):
+        if n not in ids: ids[n] = len(ids)
+        return ids[n]
+    SG = {"": 0, "+": 1, "-": 2}
+    head = [0 if T["version"] == "1.0" else 1, 1 if T["has_meshes"] else 0, len(T["meshes"])]
+    pid = point_ids(m["meshes"])
+    for given, k in T["meshes"]:
+        head += [0, 0] if given is None else [1, nid(given)]
+        name, vs, ts = m["meshes"][k]
+        head += [len(pid[k])] + pid[k] + [len(ts)] + [x for t in ts for x in t]
+    head.append(len(T["ifaces"]))
+    for given, toks in T["ifaces"]:
+        head += ([0, 0] if given is None else [1, nid(given)]) + [len(toks)]
+        for s_, n in toks: head += [SG[s_], nid(n)]
+    tail = [len(T["domains"])]
+    for n, toks in T["domains"]:
+        tail += [nid(n), len(toks)]
+        for t in toks: tail += ([1, 0, 0] if t[0] == "shared" else [0, SG[t[1]], nid(t[2])])
+    K = max(len(T["meshes"]), len(T["ifaces"])) + 2
+    tail += [K] + [nid(str(k + 1)) for k in range(K)]
+    return head, tail, ids
 
 def style_names(m, style):
     """the names under which meshes / interfaces are known after loading in that style"""
@@ -367,18 +399,16 @@ def write_cond(m, dirpath, rng=None, stem="model", extra=None, header=True):
     with open(c, "w") as fh: fh.write("\n".join(L) + "\n")
     return c, lines
 
-def cond_wire(m, lines, has_cond, header=True):
-    """integer/float wire of the conductivity part of a case: names -> ids (domain names first)"""
-    ids = {}
+def cond_wire(m, lines, has_cond, header=True, ids=None):
+    """integer/float wire of the conductivity part of a case (names -> the ids used for the .geom tokens)"""
+    ids = {} if ids is None else ids
     def nid(n):
         if n not in ids: ids[n] = len(ids)
         return ids[n]
-    dn = [nid(n) for n, _ in m["domains"]]
     w = [1 if has_cond else 0, 1 if header else 0, len(lines) if has_cond else 0]
     fl = []
     if has_cond:
         for it in lines:
             if it[0] == "c": w += [0, 0]
             else: w += [1, nid(it[1])]; fl.append(float(it[2]))
-    w += dn
     return w, fl
